@@ -14,6 +14,8 @@ func (e *FilterExec) Explain() string {
 }
 
 func (e *FilterExec) Filter(kvp KVPair, ctx *ExecuteCtx) (bool, error) {
+	// Field results cached for the previous scanned row are not valid for this one
+	ctx.ClearRowCache()
 	ret, err := e.filterBatch([]KVPair{kvp}, ctx)
 	if err != nil {
 		return false, err
